@@ -11,7 +11,7 @@ NoneStr = "```(None)```"  # == cdd.shared.ast_utils.NoneStr (asserted in oracle.
 
 NAMES = ["alpha", "beta", "gamma", "delta", "epsilon"]
 # name sets whose members contain one another (an earlier name inside a later one, and the other way round): text-level matching of names
-ALT_NAMES = [["rate", "learning_rate", "rate_decay"], ["batch_size", "size", "s"]]
+ALT_NAMES = [["rate", "learning_rate", "rate_decay"], ["batch_size", "size", "s"], ["größe", "température", "naïve_λ"]]
 
 # ---- type shapes -----------------------------------------------------------------------------------------
 TYPES = [
@@ -40,6 +40,7 @@ TYPES = [
     "Optional[List[Optional[int]]]",
     "Dict[str, List[int]]",
     "Union[int, str, float]",
+    "Optional[Union[float, str]]",  # str only at nesting depth two
 ]
 
 
@@ -65,6 +66,9 @@ def defaults_for(t):
         d += [("int", 2)]
     elif t and t.startswith("Literal["):
         d += [("str", "x-y" if "x-y" in t else "member_one" if "member_one" in t else "a")]
+    if b == "str" or t == "Optional[Union[float, str]]":
+        # strings whose bare text reads as a value of another type
+        d += [("strfloat", "0.5"), ("strdigits", "5"), ("strtrue", "True")]
     if b == "str":
         d += [("strspace", "a b"), ("emptystr", ""), ("strdot", "a.b"), ("strquote", 'say "hi"'), ("strapos_dot", "don't panic. retry"), ("strquote_dot", 'say "hi". bye')]
     if b == "bool":
